@@ -416,3 +416,59 @@ Proof.
   destruct e as [e|]; cbn; zcmp; unfold aexit, unset_deadline; cbn; zcmp;
     rewrite ?Z.eqb_refl; cbn; zcmp; repeat split; auto; try lia; try (right; discriminate).
 Qed.
+
+(* ---------- the level at which an expiry is reported, for ANY nesting ---------- *)
+(* what leaves a block, given what left its body *)
+Definition body_result (k : kind) (ab : bool) (t : Z) (body : prog) (s : st) : res :=
+  fst (eval body (set_deadline s (if ab then t else now s + t))).
+Definition block_expired (k : kind) (ab : bool) (t : Z) (body : prog) (s : st) : bool :=
+  match rev (log (snd (eval (Block k ab t body) s))) with (_, e) :: _ => e | [] => false end.
+
+Lemma aexit_cases k dl r s :
+  let '(r', s') := aexit k dl r s in
+  exists e, log s' = log s ++ [(r', e)] /\
+    ((e = false /\ r' = r) \/
+     (e = true /\ timed_out s = Some dl /\ r' = match k with KIgnore => Ok | KTimeout => Exc ETaskTimeout end) \/
+     (e = false /\ r = Exc ETaskTimeout /\ r' = Exc EUncaught) \/
+     (e = false /\ r' = Exc ETimeoutCancellation /\ exists d, timed_out s = Some d /\ d <> dl)).
+Proof.
+  unfold aexit, unset_deadline. cbn [fst snd]. destruct r as [|e0].
+  - eexists. split; [reflexivity|]. left. auto.
+  - destruct (negb (is_cancelish e0)).
+    + eexists. split; [reflexivity|]. left. auto.
+    + destruct (timed_out s) as [d|] eqn:Et.
+      * destruct (d =? dl) eqn:Ed.
+        -- apply Z.eqb_eq in Ed. subst d. destruct k; eexists; (split; [reflexivity|]); right; left; auto.
+        -- apply Z.eqb_neq in Ed.
+           destruct (negb (opt_in (Some d) (deadlines s))).
+           ++ destruct (exn_eqb e0 ETaskTimeout) eqn:Ee.
+              ** destruct e0; try discriminate. eexists. split; [reflexivity|]. right. right. left. auto.
+              ** eexists. split; [reflexivity|]. left. auto.
+           ++ destruct (exn_eqb e0 ETimeoutCancellation) eqn:Ee.
+              ** eexists. split; [reflexivity|]. left. auto.
+              ** eexists. split; [reflexivity|]. right. right. right. split; [reflexivity|]. split; [reflexivity|]. eauto.
+      * eexists. split; [reflexivity|]. left. auto.
+Qed.
+
+(* UncaughtTimeoutError leaves a block only when a TaskTimeout (an inner block's, unhandled) or that very
+   error left its body; TaskTimeout leaves a block only when the block itself expired or it left the body;
+   an ignore block ends quietly only when its body did or the block itself expired *)
+Theorem reporting_level k (ab : bool) t body s :
+  let r := fst (eval (Block k ab t body) s) in
+  let rb := body_result k ab t body s in
+  (r = Exc EUncaught -> rb = Exc ETaskTimeout \/ rb = Exc EUncaught) /\
+  (r = Exc ETaskTimeout -> rb = Exc ETaskTimeout \/ block_expired k ab t body s = true) /\
+  (r = Ok -> rb = Ok \/ (k = KIgnore /\ block_expired k ab t body s = true)) /\
+  (block_expired k ab t body s = true -> r = match k with KIgnore => Ok | KTimeout => Exc ETaskTimeout end).
+Proof.
+  unfold body_result, block_expired. cbn [eval]. cbv zeta.
+  destruct (eval body (set_deadline s (if ab then t else now s + t))) as [rb s2] eqn:Eb. cbn [fst].
+  pose proof (aexit_cases k (if ab then t else now s + t) rb s2) as H.
+  destruct (aexit k (if ab then t else now s + t) rb s2) as [r' s'] eqn:Ea. cbn [fst snd].
+  destruct H as (e & Hl & Hc). rewrite Hl, rev_app_distr. cbn.
+  destruct Hc as [[-> ->]|[[-> [_ ->]]|[[-> [-> ->]]|[-> [-> _]]]]].
+  - repeat split; auto; try discriminate.
+  - destruct k; repeat split; auto; try discriminate; intros _; right; auto.
+  - repeat split; auto; try discriminate.
+  - repeat split; auto; try discriminate.
+Qed.
